@@ -369,7 +369,7 @@ Proof.
   intros Ho. apply (sw_run FInv); try assumption.
   - intros; eapply finv_frame; [eapply ff_finish; eauto|assumption].
   - intros; eapply finv_frame; [eapply ff_place; eauto|assumption].
-  - intros s0 a o p HI. eapply finv_frame; [|exact HI]. unfold FFrame. proj_cbn. repeat (split; [reflexivity|]). reflexivity.
+  - intros s0 a o p HI _. eapply finv_frame; [|exact HI]. unfold FFrame. proj_cbn. repeat (split; [reflexivity|]). reflexivity.
   - intros; eapply finv_frame; [eapply ff_mm_tail; eauto|assumption].
   - intros s0 k o g m p r HI _ _ _ _ _. eapply finv_frame; [|exact HI]. destruct k as [[a pp] i]. unfold FFrame, fill_book. proj_cbn. repeat (split; [reflexivity|]). reflexivity.
   - intros s0 k o g st HI _ _ _. eapply finv_frame; [|exact HI]. unfold FFrame. proj_cbn. repeat (split; [reflexivity|]). reflexivity.
